@@ -30,7 +30,7 @@ var FamilyNames = []string{
 	"self", "wide-kids", "wide-filters", "deep-array", "deep-dict", "deep-content",
 	"acroform-loop", "xobject-loop", "type3-loop", "action-chain", "pattern-loop",
 	"parent-loop", "contents-array", "colorspace-chain", "huge-offsets",
-	"nest-function", "nest-action", "nest-colorspace", "presteps-chain", "objstm-filter", "objstm-offsets", "xref-index-sum", "cmap-wide", "catalog-pages",
+	"nest-function", "nest-action", "nest-colorspace", "presteps-chain", "objstm-filter", "objstm-offsets", "xref-dct", "xref-index-sum", "cmap-wide", "catalog-pages",
 }
 
 // wiringFamily builds a large wiring of one of the model's walkers and
@@ -470,6 +470,8 @@ func (fam *Family) build() ([]byte, error) {
 		return fam.buildObjStmFilter(n), nil
 	case "objstm-offsets":
 		return fam.buildObjStmOffsets(n), nil
+	case "xref-dct":
+		return fam.buildXRefDCT(n), nil
 	case "xref-index-sum":
 		return fam.buildXRefIndexSum(n), nil
 	case "cmap-wide":
@@ -660,6 +662,27 @@ func (fam *Family) buildObjStmFilter(n int) []byte {
 	}
 	sx := a.xrefStream(9, ents, "/Root 1 0 R", fam.XS)
 	return a.finish(sx)
+}
+
+// buildXRefDCT: a cross-reference stream behind /Filter /DCTDecode (alone or
+// below ASCIIHexDecode): the "pixels" of a JPEG are read as entries, only as
+// many as /Size asks for.  Whatever becomes of the entries, the decoder (a
+// goroutine of its own) must be gone when NewReader returns.
+func (fam *Family) buildXRefDCT(n int) []byte {
+	a := newAsm("1.7")
+	a.obj(1, "<< /Type /Catalog /Pages 2 0 R >>")
+	a.obj(2, "<< /Type /Pages /Kids [3 0 R] /Count 1 >>")
+	a.obj(3, "<< /Type /Page /Parent 2 0 R /MediaBox [0 0 100 100] /Resources << >> >>")
+	p := a.pos()
+	jp := testJPEG(64+8*(n%5), 64, n%2 == 1)
+	filter := "/Filter /DCTDecode"
+	if fam.Cyc {
+		jp = hexN(jp, 1)
+		filter = "/Filter [/ASCIIHexDecode /DCTDecode]"
+	}
+	size := []int{5, 1, 40, 1000}[n%4]
+	a.stream(9, fmt.Sprintf("/Type /XRef /Size %d /W [1 2 1] /Root 1 0 R %s", size, filter), "", jp)
+	return a.finish(p)
 }
 
 // buildObjStmOffsets: an object stream whose header pairs give offsets at
